@@ -8,6 +8,8 @@ package main
 import (
 	"fmt"
 	"os"
+	"strconv"
+	"syscall"
 )
 
 type subcmd func(args []string) int
@@ -25,6 +27,20 @@ func main() {
 	if !ok {
 		fmt.Fprintf(os.Stderr, "unknown sub-command %q\n", os.Args[1])
 		os.Exit(2)
+	}
+	// VERIF_UID: give up root before anything runs, so that file modes mean something (EACCES faults)
+	if u := os.Getenv("VERIF_UID"); u != "" {
+		id, err := strconv.Atoi(u)
+		if err == nil {
+			_ = syscall.Setgroups([]int{})
+			if err = syscall.Setgid(id); err == nil {
+				err = syscall.Setuid(id)
+			}
+		}
+		if err != nil || os.Geteuid() != id {
+			fmt.Fprintf(os.Stderr, "cannot switch to uid %s: %v\n", u, err)
+			os.Exit(2)
+		}
 	}
 	os.Exit(f(os.Args[2:]))
 }
